@@ -1,4 +1,6 @@
-CONSTANT ItemFirst = FALSE
+CONSTANTS
+  ItemFirst = FALSE
+  LocAfterValue = TRUE
 SPECIFICATION Spec
-INVARIANTS CopyKeepsItem SizeIsReal NeverLost
+INVARIANTS CopyKeepsItem SizeIsReal NeverLost LoadsSeeWrittenBytes
 CHECK_DEADLOCK FALSE
